@@ -622,6 +622,49 @@ func c03ModuleLevel(r *fw.Rec) {
 	b := f.NewBlock("")
 	b.NewRet(ci(types.I32, 0))
 	c03CheckModule(r, "module-level", m)
+	c03BlockAddresses(r)
+}
+
+// c03BlockAddresses builds the uses of unnamed blocks from outside their
+// function: a global initialised with the address of a numbered block (globals
+// are printed before the function is numbered) and a function taking the
+// address of a numbered block of a later function. The module is printed once
+// (first print of a never printed module) and must be valid; a second print must
+// agree.
+func c03BlockAddresses(r *fw.Rec) {
+	m := ir.NewModule()
+	mk := func(name string) (*ir.Func, *ir.Block) {
+		f := m.NewFunc(name, types.I32, ir.NewParam("", types.I32))
+		entry := f.NewBlock("")
+		v := entry.NewAdd(f.Params[0], ci(types.I32, 1))
+		target := f.NewBlock("")
+		entry.NewBr(target)
+		target.NewRet(v)
+		return f, target
+	}
+	g := m.NewGlobal("slot", types.I8Ptr) // placeholder, initialised below
+	fa, ta := mk("a")
+	user := m.NewFunc("user", types.I8Ptr)
+	fb, tb := mk("b")
+	g.Init = constant.NewBlockAddress(fa, ta)
+	m.NewGlobalDef("table", constant.NewArray(types.NewArray(2, types.I8Ptr), constant.NewBlockAddress(fb, tb), constant.NewBlockAddress(fa, ta)))
+	user.NewBlock("").NewRet(constant.NewBlockAddress(fb, tb))
+	first, pp := printGuard(m)
+	if pp != "" {
+		r.Violate(fw.Violation{Key: "print-panic/blockaddress-of-numbered-block", What: firstLine(pp)})
+		return
+	}
+	r.Eval(1)
+	if ok, msg, err := llvmref.Accepts(first); err == nil && !ok {
+		r.Violate(fw.Violation{Key: "llvm-rejects/blockaddress-of-numbered-block", Input: "c03BlockAddresses", What: "LLVM rejects the first print of a constructed module whose global initializers take the address of numbered blocks: " + firstLine(lastDiag(msg)), Observed: first})
+		return
+	}
+	second, _ := printGuard(m)
+	if second != first {
+		r.Violate(fw.Violation{Key: "second-print-differs/blockaddress-of-numbered-block", Input: "c03BlockAddresses", What: "printing the constructed module twice gives two texts: " + firstDiffLines(first, second), Expected: first, Observed: second})
+		return
+	}
+	c03CheckModule(r, "blockaddress-of-numbered-block", m)
 }
 
 var _ = strings.Contains
